@@ -516,6 +516,9 @@ class World:  # pylint: disable=too-many-instance-attributes
         if callback is not None:
             rop['cb_problem'] = callback.well_formed()
         wanted = {k for k in keys if k in self.aux_model}
+        for old, new in dict(mapping).items():
+            if old not in self.aux_model or new != digest(self.hash_type, self.aux_model[old]):
+                raise self.viol('import-mapping', f'import_objects mapping sends {old[:10]} to {new[:10]}, which is not the key of its content here')
         for key in wanted:
             data = self.aux_model[key]
             self.model[digest(self.hash_type, data)] = data
